@@ -1,6 +1,7 @@
 // C15 message round trip, C16 decode totality, C17 manifest round trip, C18 manifest decode totality,
 // C33 STUN parsing, C37 structured logger, C38 update metadata parser.
 #include <arpa/inet.h>
+#include <sys/stat.h>
 
 #include <algorithm>
 #include <cstring>
@@ -924,5 +925,57 @@ void c38_case(Ctx& c, Rng& r) {
     }
 }
 HX_PROPERTY("C38", c38_case);
+
+// ------------------------------------------------------------------------------------ seed corpora for the libFuzzer targets
+// Not a property: writes valid inputs for fz_message / fz_manifest / fz_stun below the scratch directory.
+void seeds_case(Ctx& c, Rng& r) {
+    auto put = [&](const char* sub, const std::vector<std::uint8_t>& bytes) {
+        const auto dir = c.scratch + "/" + sub;
+        ::mkdir(dir.c_str(), 0755);
+        std::ofstream f(dir + "/seed-" + std::to_string(c.cur_case), std::ios::binary | std::ios::trunc);
+        f.write(reinterpret_cast<const char*>(bytes.data()), static_cast<std::streamsize>(bytes.size()));
+    };
+    {
+        const auto m = gen::message(r, static_cast<int>(c.cur_case % 6), static_cast<std::uint8_t>(1 + (c.cur_case / 6) % 4), 120);
+        const auto key = r.bytes(c.cur_case % 3 == 0 ? 0 : 32);
+        std::vector<std::uint8_t> in;
+        in.push_back(static_cast<std::uint8_t>(key.size()));
+        in.insert(in.end(), key.begin(), key.end());
+        const auto enc = (c.cur_case % 2) ? protocol::encode_signed(m, sp(key)) : protocol::encode(m);
+        in.insert(in.end(), enc.begin(), enc.end());
+        put("msg", in);
+    }
+    {
+        using namespace std::chrono;
+        auto m = genm::basic(r, system_clock::now() + hours(1), static_cast<std::uint8_t>(1 + r.below(3)), static_cast<std::uint8_t>(1 + r.below(4)));
+        if (r.chance(1, 2)) m.metadata["filename"] = "a.bin";
+        if (r.chance(1, 2)) m.discovery_hints.push_back({"transport", "tcp", "1.2.3.4:5", 1});
+        if (r.chance(1, 2)) m.fallback_hints.push_back({"control://1.2.3.4:5", 2});
+        if (r.chance(1, 2)) { m.security.has_attestation_digest = true; m.security.advisory = "x"; }
+        if (r.chance(1, 3)) m.security.token_challenge_bits = static_cast<std::uint8_t>(r.below(24));
+        const auto uri = protocol::encode_manifest(m);
+        auto raw = genm::unb64(uri.substr(6));
+        raw.insert(raw.begin(), 2);
+        put("man", raw);
+    }
+    {
+        const auto txid = r.arr<12>();
+        std::vector<std::uint8_t> body, plain;
+        std::uint16_t port = 0;
+        const bool xored = r.chance(1, 2);
+        const auto v = stun_addr_value(r, xored, r.chance(1, 2) ? 1 : 2, txid, plain, port);
+        if (r.chance(1, 2)) stun_attr(body, 0x8022, r.bytes(r.below(9)));
+        stun_attr(body, xored ? 0x0020 : 0x0001, v);
+        std::vector<std::uint8_t> d(txid.begin(), txid.end());
+        d.push_back(0x01); d.push_back(0x01);
+        d.push_back(static_cast<std::uint8_t>(body.size() >> 8)); d.push_back(static_cast<std::uint8_t>(body.size() & 0xff));
+        d.push_back(0x21); d.push_back(0x12); d.push_back(0xA4); d.push_back(0x42);
+        d.insert(d.end(), txid.begin(), txid.end());
+        d.insert(d.end(), body.begin(), body.end());
+        put("stun", d);
+    }
+    c.sig(c.cur_case);
+}
+HX_PROPERTY("SEEDS", seeds_case);
 
 }  // namespace
